@@ -60,6 +60,13 @@ def gen_cases(tier, seed):
         r = random.Random(env.seed_for(s, "descriptor"))
         out.append({"seed": s, "mode": r.choice(["retry_shared", "retry_callables"]), "n": r.randint(2, 7), "W": r.choice([1, 2, 4]), "sched": r.choice(["default", "random"]),
                     "attempts": r.choice([2, 3, 4])})
+    for i in range(max(24, n // 60)):
+        # structures a user builds by hand: (a) ONE container object passed to several plan.call / plan.gather invocations and changed in place in between;
+        # (b) sets whose members are tuples that contain nodes (hashable containers), as output, inside a dict, or as a call argument
+        s = env.seed_for(seed, ID, tier, "odd_structures", i)
+        r = random.Random(env.seed_for(s, "descriptor"))
+        out.append({"seed": s, "mode": "odd_structures", "what": ["reused_container", "set_of_tuples"][i % 2], "W": r.choice([1, 2, 4]),
+                    "sched": r.choice(["default", "random"]), "n": r.randint(3, 8)})
     return out
 
 
@@ -154,7 +161,111 @@ def preempt_oracle(R, ir):
     return None
 
 
+def run_odd_structures(desc):
+    import collections
+
+    import uberjob
+
+    rng = random.Random(desc["seed"])
+    executed = collections.Counter()
+
+    def mk(tag):
+        def f(*a, **k):
+            executed[tag] += 1
+            return tag
+
+        f.__name__ = f"leaf{tag}"
+        return f
+
+    def total(xs, *rest):
+        executed["total"] += 1
+        flat = []
+
+        def walk(v):
+            if isinstance(v, (list, tuple, set, frozenset)):
+                for y in (sorted(v, key=repr) if isinstance(v, (set, frozenset)) else v):
+                    walk(y)
+            elif isinstance(v, dict):
+                for k_, y in v.items():
+                    walk(y)
+            else:
+                flat.append(v)
+
+        walk(xs)
+        return flat
+
+    plan = uberjob.Plan()
+    n = desc["n"]
+    leaves = [plan.call(mk(i)) for i in range(n)]
+    what = desc["what"]
+    bad = None
+    if what == "reused_container":
+        # one list object, used for several calls and changed in place in between (append / remove / replace)
+        box = [leaves[0]]
+        want_sets = []
+        calls = []
+        for step in range(rng.randint(2, 4)):
+            op = rng.choice(["append", "append", "remove", "replace"])
+            if op == "append" or len(box) < 2:
+                box.append(leaves[rng.randrange(1, n)])
+            elif op == "remove":
+                box.pop(rng.randrange(len(box)))
+            else:
+                box[rng.randrange(len(box))] = leaves[rng.randrange(n)]
+            form = rng.choice(["arg", "gather", "nested"])
+            node = plan.call(total, box) if form == "arg" else (plan.gather(box) if form == "gather" else plan.call(total, {"k": box}))
+            calls.append((node, form))
+            want_sets.append([leaves.index(x) for x in box])
+        pick = rng.randrange(len(calls))
+        out, form = calls[pick]
+        want_leaves = set(want_sets[pick])
+        want_value = [i for i in want_sets[pick]]
+        label = f"one list object used for {len(calls)} calls and changed in place in between; the output is use #{pick + 1} ({form}) whose members then were leaves {want_sets[pick]}"
+    else:
+        mk_set = set  # (the gather rule names list, tuple, set and dict; a frozenset is an opaque value)
+        members = rng.sample(range(n), rng.randint(1, min(3, n)))
+        st = mk_set((leaves[i], f"tag{i}") for i in members)
+        form = rng.choice(["output", "in_dict", "argument"])
+        out = st if form == "output" else ({"structure": st} if form == "in_dict" else plan.call(total, st))
+        want_leaves = set(members)
+        want_value = None
+        label = f"a {mk_set.__name__} of (node, text) tuples over leaves {sorted(members)} as {form}"
+    exc = res = None
+    try:
+        res = uberjob.run(plan, output=out, max_workers=desc["W"], scheduler=desc["sched"], progress=None)
+    except BaseException as e:  # noqa
+        exc = e
+    got = {k for k in executed if k != "total"}
+    if exc is not None:
+        bad = f"run raised {exc!r:.150}"
+    elif got != want_leaves or any(executed[k] != 1 for k in got):
+        bad = f"executed leaf calls {sorted(got)} (counts {dict(executed)}), the output depends on exactly {sorted(want_leaves)}, once each"
+    else:
+        # no symbolic node may be left in what run returns
+        def has_node(v):
+            if isinstance(v, uberjob.graph.Node):
+                return True
+            if isinstance(v, dict):
+                return any(has_node(a) or has_node(b) for a, b in v.items())
+            if isinstance(v, (list, tuple, set, frozenset)):
+                return any(has_node(a) for a in v)
+            return False
+
+        if has_node(res):
+            bad = f"run returned a structure that still contains symbolic nodes: {res!r:.150}"
+        elif want_value is not None and form != "gather" and res != want_value:
+            bad = f"run returned {res!r:.100}, expected {want_value}"
+        elif want_value is not None and form == "gather" and list(res) != want_value:
+            bad = f"run returned {res!r:.100}, expected {want_value}"
+    r_ = {"status": "ok", "counters": {"odd_structure_runs": 1}, "sets": {"odd_structures": [what]}, "nontrivial": True, "sig": f"oddstruct|{what}|{desc['seed'] % 100000}"}
+    if bad:
+        r_.update(status="violation", mechanism="execution-count", detail=f"[{label}; W={desc['W']}, {desc['sched']}] {bad}")
+    return r_
+
+
 def run_case(desc):
+    if desc.get("mode") == "odd_structures":
+        return run_odd_structures(desc)
     if desc.get("mode") in ("retry_shared", "retry_callables"):
         from vmon.checks import c10
 
